@@ -64,12 +64,12 @@ example : decP .i32arr (encP .i32arr (.list [.int 1, .int (-1)])) = some (.list 
   simpa using this
 
 /-- array lengths: `getArrayLength` gives the count back when the count does not exceed the bytes that follow
-    nor 2·MaxUint16 (its own plausibility guards); compact lengths always -/
-theorem array_length_roundtrip (n : Int) (rest : Bytes) (h : InInt 4 n) (hr : n ≤ rest.length) (hm : n ≤ 131070) :
-    getArrayLength (putArrayLength n ++ rest) = some (n, rest) := getArrayLength_put n rest h hr hm
+    nor 2·MaxUint16 (its own plausibility guards); compact lengths when they do not exceed the bytes that follow -/
+theorem array_length_roundtrip (n : Int) (rest : Bytes) (h : InInt 4 n) (hr : n ≤ rest.length) (hm : n ≤ 131070)
+    (hneg : -1 ≤ n) : getArrayLength (putArrayLength n ++ rest) = some (n, rest) := getArrayLength_put n rest h hr hm hneg
 
-theorem compact_array_length_roundtrip (n : Nat) (rest : Bytes) (h : n + 1 < 2 ^ 64) :
-    getCompactArrayLength (putCompactArrayLength n ++ rest) = some (n, rest) := getCompactArrayLength_put n rest h
+theorem compact_array_length_roundtrip (n : Nat) (rest : Bytes) (h : n + 1 < 2 ^ 64) (hr : n ≤ rest.length) :
+    getCompactArrayLength (putCompactArrayLength n ++ rest) = some (n, rest) := getCompactArrayLength_put n rest h hr
 
 /-! ## the schema interpreters -/
 
